@@ -138,6 +138,7 @@ type childstate struct {
 // (hashes / n)
 func GetMerkleRoot(hashes [][]byte) []byte {
 	ncpu := runtime.NumCPU()
+	ncpu = verifWorkers(ncpu)
 	if len(hashes) <= 80 || ncpu <= 1 {
 		return getMerkleRoot(hashes)
 	}
